@@ -111,7 +111,7 @@ func runC15(c *Ctx, r *Report) {
 		var finds []finding
 		seenF := map[ssa.Instruction]bool{}
 		checked := map[ssa.Instruction]bool{}
-		if fn.Object() == types.Object(pi.peekError) || fn.Object() == types.Object(pi.noPrefix) || fn.Object() == types.Object(pi.expectPeek) {
+		if fn.Object() == types.Object(pi.peekError) || fn.Object() == types.Object(pi.noPrefix) {
 			continue // the error helpers themselves: their call sites are the obligations
 		}
 		states := []eolState{{curEOL: -1, peekEOL: 1}}
